@@ -537,6 +537,19 @@ def main():
                 v["kind"] = "oracle"
                 v["detail"] = ("the 10-byte header is not C3 01 + the CRC-64-AVRO fingerprint of the schema's "
                                "canonical form | " + v["detail"])
+            else:
+                # the first entry after `ser` reads the message just written, from a slice / from a
+                # reader: it must succeed from both and give the same value
+                parts = v["rust"].split(" ; ")
+                if len(parts) > 1 and " / " in parts[1]:
+                    a, b = [x.strip() for x in parts[1].split(" / ", 1)]
+                    strip = lambda x: " ".join(t for t in x.split())
+                    if a.startswith("err") or b.startswith("err"):
+                        v["kind"] = "oracle"
+                        v["detail"] = "a message written under the schema is rejected when read back under it | " + v["detail"]
+                    elif strip(a).replace(" 1", " 0") != strip(b).replace(" 1", " 0"):
+                        v["kind"] = "oracle"
+                        v["detail"] = "slice and reader entry points give different values for one message | " + v["detail"]
         elif v["case"].startswith("derive "):
             # C20 on the implementation's own outcome for this family of types
             bad = [t for t in rt if t in ("NONDET", "json-REJECTED", "json-err", "schema-err", "err", "rt-NE", "rt-err")]
